@@ -393,9 +393,9 @@ def run(ctx):
     with ctx.timed('table'):
         run_table(ctx)
     if ctx.tier == 'quick':
-        core.run_sharded(ctx, __name__, 'shard', 1, (1500, 600))
-        core.run_sharded(ctx, __name__, 'shard_small', 1, (40,))
-        core.run_sharded(ctx, __name__, 'shard_vacuity', 1, (8,))
+        core.run_sharded(ctx, __name__, 'shard', 4, (450, 180))
+        core.run_sharded(ctx, __name__, 'shard_small', 4, (40,))
+        core.run_sharded(ctx, __name__, 'shard_vacuity', 4, (8,))
     else:
         n = getattr(ctx, 'shards_override', None) or 16
         core.run_sharded(ctx, __name__, 'shard', n, (16000, 6000))
